@@ -144,8 +144,8 @@ class VM2:
         return out
 
     # ---------- run
-    def run(self, assumptions=()):
-        init = dict(pc=0, mem=dict(self.state), ev=(), choices=(), steps=0, seen=frozenset())
+    def run(self, assumptions=(), entry=0):
+        init = dict(pc=entry, mem=dict(self.state), ev=(), choices=(), steps=0, seen=frozenset())
         self.results = []
         work = [(init, tuple(assumptions))]
         while work:
